@@ -772,6 +772,29 @@ pub fn run_build(args: &[&str]) -> String {
         Some(p) if t.done() => p,
         _ => return "BADCASE".into(),
     };
+    #[cfg(not(simple_dns_verif_table))]
+    if args[0] == "T" {
+        return "NOTABLE".into();
+    }
+    #[cfg(simple_dns_verif_table)]
+    if args[0] == "T" {
+        // (also reachable as the TABLE command) the compression table the compressed write ends with (cfg(simple_dns_verif) hook): suffix labels -> offset, sorted
+        let _ = simple_dns::verif_hooks::take_compression_table();
+        return match p.build_bytes_vec_compressed() {
+            Ok(msg) => {
+                let mut rows: Vec<String> = simple_dns::verif_hooks::take_compression_table()
+                    .into_iter()
+                    .map(|(ls, pos)| format!("{}@{:x}", name_toks(&ls).replace(' ', ","), pos))
+                    .collect();
+                rows.sort();
+                rows.insert(0, format!("OK {:x}", rows.len()));
+                rows.push("|".to_string());
+                rows.push(bytes_to_hex(&msg));
+                rows.join(" ")
+            }
+            Err(e) => err_line(&e),
+        };
+    }
     let r = match args[0] {
         "P" => p.build_bytes_vec(),
         "C" => p.build_bytes_vec_compressed(),
